@@ -818,8 +818,11 @@ SIM_EXPORT void sim_get_stats(sim_stats* out)
     *out = g_st;
 }
 SIM_EXPORT void sim_hash_mix(uint64_t v) { hmix(v); }
+static uint64_t g_budget_scale = 1;
+SIM_EXPORT void sim_set_budget_scale(uint64_t n) { g_budget_scale = n ? n : 1; }
 SIM_EXPORT void sim_quiesce(uint64_t budget)
 {
+    budget *= g_budget_scale;
     if (!g_quiesced)
     {
         g_quiesced = 1;
